@@ -109,7 +109,7 @@ Proof.
   destruct (s_pheap _ (i_S _ I) _ Ha) as [h [Hh Ho]]. rewrite Hh. unfold ok_s, ok_t, good.
   destruct (stack_facts c t _ _ I E) as (S1 & S2 & S3 & S4).
   apply (step_top c t (RF3 b) rest [RF4 b h]); auto; top_side; try stk_ok_top.
-  rewrite Ho, Hh, oN_eqb_refl. reflexivity.
+  rewrite Ha, Ho, Hh, oN_eqb_refl. reflexivity.
 Qed.
 
 Lemma step_RF4 c t b h rest alt : Inv c -> th_stk (gett c t) = RF4 b h :: rest ->
@@ -117,7 +117,7 @@ Lemma step_RF4 c t b h rest alt : Inv c -> th_stk (gett c t) = RF4 b h :: rest -
 Proof.
   intros I E. cbn [fstep].
   destruct (stack_facts c t _ _ I E) as (S1 & S2 & S3 & S4).
-  assert (S2' := S2). cbn [fr_ok] in S2'. apply andb_prop in S2' as [Ho _]. apply hown_true in Ho as [Hal _].
+  assert (S2' := S2). cbn [fr_ok] in S2'. apply andb_prop in S2' as [Ho _]. apply andb_prop in Ho as [_ Ho]. apply hown_true in Ho as [Hal _].
   rewrite Hal. cbn [negb]. unfold ok_s, ok_t, good.
   apply (step_top c t (RF4 b h) rest [RF5 b h _]); auto; top_side; try stk_ok_top.
   cbn [fr_ok] in S2. rewrite S2. reflexivity.
@@ -140,7 +140,7 @@ Lemma step_RF5 c t b h dhd rest alt : Inv c -> th_stk (gett c t) = RF5 b h dhd :
 Proof.
   intros I E. cbn [fstep].
   destruct (stack_facts c t _ _ I E) as (S1 & S2 & S3 & S4).
-  assert (S2' := S2). cbn [fr_ok] in S2'. apply andb_prop in S2' as [Ho Hab]. apply hown_true in Ho as [Hal Hown].
+  assert (S2' := S2). cbn [fr_ok] in S2'. apply andb_prop in S2' as [Ho Hab]. apply andb_prop in Ho as [_ Ho]. apply hown_true in Ho as [Hal Hown].
   rewrite Hal. cbn [negb]. unfold ok_s, ok_t, good.
   pose proof (rf_alone _ _ S1) as Hr. cbn in Hr. subst rest.
   pose proof (i_wf _ I) as Hwf.
@@ -162,7 +162,7 @@ Proof.
       * intros _. lia.
       * nd_tac ND.
   - (* del_ok of the new list *)
-    cbn [forallb]. rewrite (s_del _ (i_S _ I) h), andb_true_r. unfold del_ok. fold p. rewrite Hal, Hown, N.eqb_refl.
+    cbn [forallb]. rewrite (s_del _ (i_S _ I) h), andb_true_r. unfold del_ok. fold p. rewrite Hal, Hpa, Hown, N.eqb_refl.
     cbn [andb]. revert Hab. apply orb_mono. rewrite <- Hown. apply absorbing_hd_bottom.
   - (* no other thread is about to free heap h *)
     intros t' Hne Hin.
